@@ -67,7 +67,8 @@ func replace(regex *Regexp, data *syntax.ReplacerData, evaluator MatchEvaluator,
 		return "", errors.New("count too small")
 	}
 	if count == 0 {
-		return "", nil
+		// replacing the first zero matches leaves the input as it is
+		return input, nil
 	}
 
 	if evaluator == nil {
